@@ -261,7 +261,7 @@ func (i ItemCollection) Equals(with Item) bool {
 	if !with.IsCollection() {
 		return false
 	}
-	if with.GetType() != CollectionOfItems {
+	if with.GetType() != CollectionOfItems && with.GetType() != CollectionOfIRIs {
 		return false
 	}
 	result := true
@@ -271,7 +271,7 @@ func (i ItemCollection) Equals(with Item) bool {
 			return nil
 		}
 		for _, it := range i {
-			if !w.Contains(it.GetLink()) {
+			if !w.Contains(it) {
 				result = false
 				return nil
 			}
